@@ -5,6 +5,7 @@ use std::path::PathBuf;
 use serde_json::json;
 
 use crate::common::*;
+use crate::Violation;
 
 pub fn verif_dir() -> PathBuf {
     PathBuf::from(std::env::var("VERIF_DIR").unwrap_or_else(|_| "/verif".into()))
@@ -52,6 +53,7 @@ pub fn finish<H: Harness>(
     let mut replay_path = None;
     if let Some(f) = &r.found {
         violations = 1;
+        let mut fallback = false;
         match write_replay(h, &vd.join("replays"), f, seed) {
             Ok(p) => {
                 // replay in this process once more from the file to prove exact reproduction
@@ -81,27 +83,46 @@ pub fn finish<H: Harness>(
                                 println!("replay in a fresh process reproduced the violation");
                             }
                             other => {
-                                eprintln!("harness error: replay in a fresh process did not reproduce the violation ({:?})", other);
-                                return 2;
+                                eprintln!("note: replay in a fresh process did not reproduce the violation ({:?})", other);
+                                fallback = true;
                             }
                         }
-                        println!("VIOLATION property={} replay={}", v.property, p.display());
-                        replay_path = Some(p);
-                        code = 1;
+                        if !fallback {
+                            println!("VIOLATION property={} replay={}", v.property, p.display());
+                            replay_path = Some(p);
+                            code = 1;
+                        }
                     }
                     ReplayVerdict::NoViolation(_) => {
-                        eprintln!("harness error: replay file did not reproduce the violation");
-                        return 2;
+                        eprintln!("note: replay file did not reproduce the violation");
+                        fallback = true;
                     }
                     ReplayVerdict::Nondeterministic(e) => {
-                        eprintln!("harness error: nondeterministic replay: {e}");
-                        return 2;
+                        eprintln!("note: nondeterministic replay: {e}");
+                        fallback = true;
                     }
                 }
             }
             Err(e) => {
-                eprintln!("harness error: {e}");
-                return 2;
+                eprintln!("note: {e}");
+                fallback = true;
+            }
+        }
+        if fallback {
+            // The scenario fails here but not on its own: the code under test carries state from
+            // one pool (run) to the next. Find the violation again in a fresh process that executes
+            // the seeded runs one after the other on one thread - that history is replayable.
+            match sequence_fallback(h, id, tier == "thorough", seed, f, r.n_pre, &vd.join("replays")) {
+                Ok((p, v)) => {
+                    println!("violation: {} [{}] {}", v.property, v.clause, v.detail);
+                    println!("VIOLATION property={} replay={}", v.property, p.display());
+                    replay_path = Some(p);
+                    code = 1;
+                }
+                Err(e) => {
+                    eprintln!("harness error: a violation was seen but cannot be reproduced, neither on its own nor as a sequence of runs in a fresh process: {e}");
+                    return 2;
+                }
             }
         }
     }
@@ -157,6 +178,9 @@ pub fn do_replay<H: Harness>(h: &H, rf: &ReplayFile<H::Sc>, path: &str, quiet: b
         seed: rf.seed,
         dir: std::path::Path::new(path).parent().map(|p| p.to_path_buf()).unwrap_or_else(|| verif_dir().join("replays")),
     });
+    if let Some(seq) = &rf.sequence {
+        return replay_sequence(h, rf, seq, path);
+    }
     match replay_file(h, rf, true) {
         ReplayVerdict::Reproduced(v, trace) => {
             if !quiet {
@@ -184,3 +208,134 @@ pub fn do_replay<H: Harness>(h: &H, rf: &ReplayFile<H::Sc>, path: &str, quiet: b
     }
 }
 
+
+
+/// Executes the seeded runs `0..=upto` of a batch one after the other on this thread. With an
+/// expectation: exit 1 iff the first violation is the expected one at the expected run; without:
+/// the first violation is written to `<path>.found.json` (exit 1), exit 0 if there is none.
+fn replay_sequence<H: Harness>(h: &H, rf: &ReplayFile<H::Sc>, seq: &SeqInfo, path: &str) -> i32 {
+    let t0 = std::time::Instant::now();
+    for i in 0..=seq.upto {
+        let sc = seeded_scenario(h, rf.seed, &seq.profile, seq.thorough, i);
+        let o = {
+            let _g = crate::abortguard::running(&sc);
+            h.run(&sc, None, false)
+        };
+        if let Some(v) = o.violation {
+            if v.property == "HARNESS" {
+                eprintln!("harness error: {} {}", v.clause, v.detail);
+                return 2;
+            }
+            return match (&seq.expect_index, &seq.expect_signature) {
+                (Some(ei), Some(es)) => {
+                    if *ei == i && *es == v.signature() {
+                        println!("violation: {} [{}] {}", v.property, v.clause, v.detail);
+                        println!("reproduced as run {i} of a sequence of {} runs in one process", i + 1);
+                        println!("VIOLATION property={} replay={}", v.property, path);
+                        1
+                    } else {
+                        eprintln!("harness error: sequence replay found {} at run {i}, expected {es} at run {ei}", v.signature());
+                        2
+                    }
+                }
+                _ => {
+                    let body = json!({
+                        "index": i,
+                        "signature": v.signature(),
+                        "property": v.property,
+                        "clause": v.clause,
+                        "detail": v.detail,
+                        "scenario": serde_json::to_value(&sc).unwrap_or(serde_json::Value::Null),
+                        "shape": h.shape(&sc),
+                    });
+                    let _ = std::fs::write(format!("{path}.found.json"), body.to_string());
+                    1
+                }
+            };
+        }
+        if seq.expect_index.is_none() && t0.elapsed().as_secs() > 120 {
+            break;
+        }
+    }
+    println!("replay of {path}: no violation in the sequence on this tree");
+    0
+}
+
+fn sequence_fallback<H: Harness>(
+    h: &H,
+    profile: &str,
+    thorough: bool,
+    seed: u64,
+    f: &Found<H::Sc>,
+    n_pre: u64,
+    dir: &std::path::Path,
+) -> Result<(std::path::PathBuf, Violation), String> {
+    let exe = std::env::current_exe().map_err(|e| e.to_string())?;
+    std::fs::create_dir_all(dir).map_err(|e| e.to_string())?;
+    let seeded_idx = f.run_index.saturating_sub(n_pre);
+    let upto = (seeded_idx.saturating_mul(8)).max(20_000);
+    let mk = |expect: Option<(u64, String)>, v: &Violation, sc: &H::Sc, shape: String| ReplayFile {
+        harness: h.name().to_string(),
+        property: v.property.clone(),
+        clause: v.clause.clone(),
+        detail: v.detail.clone(),
+        seed,
+        run_index: expect.as_ref().map(|e| e.0).unwrap_or(0),
+        scenario: sc.clone(),
+        decisions: Vec::new(),
+        log_hash: 0,
+        shape,
+        abort: false,
+        sequence: Some(SeqInfo {
+            profile: profile.to_string(),
+            thorough,
+            upto: expect.as_ref().map(|e| e.0).unwrap_or(upto),
+            expect_index: expect.as_ref().map(|e| e.0),
+            expect_signature: expect.map(|e| e.1),
+        }),
+    };
+    let scan = dir.join(format!("{}-sequence-scan-{}.json", f.v.property, seed));
+    std::fs::write(&scan, serde_json::to_string(&mk(None, &f.v, &f.sc, String::new())).unwrap()).map_err(|e| e.to_string())?;
+    let found_path = format!("{}.found.json", scan.display());
+    let _ = std::fs::remove_file(&found_path);
+    let run = |p: &std::path::Path| {
+        std::process::Command::new(&exe)
+            .args(["replay", &p.display().to_string(), "--quiet"])
+            .stdout(std::process::Stdio::null())
+            .stderr(std::process::Stdio::null())
+            .status()
+            .ok()
+            .and_then(|s| s.code())
+    };
+    if run(&scan) != Some(1) {
+        return Err("a sequential scan of the seeded runs in a fresh process shows no violation".into());
+    }
+    let txt = std::fs::read_to_string(&found_path).map_err(|e| format!("scan result: {e}"))?;
+    let fv: serde_json::Value = serde_json::from_str(&txt).map_err(|e| e.to_string())?;
+    let idx = fv["index"].as_u64().ok_or("scan result without index")?;
+    let sig = fv["signature"].as_str().ok_or("scan result without signature")?.to_string();
+    let sc: H::Sc = serde_json::from_value(fv["scenario"].clone()).map_err(|e| e.to_string())?;
+    let v = Violation::at(
+        fv["property"].as_str().unwrap_or(profile),
+        fv["clause"].as_str().unwrap_or(""),
+        format!(
+            "{} - only as run {idx} of a sequence of runs executed in one process: state is carried from one pool to the next",
+            fv["detail"].as_str().unwrap_or("")
+        ),
+        0,
+    );
+    let shape = format!("seeded runs 0..={idx} of profile {profile} (seed {seed}) one after the other; the last one: {}", fv["shape"].as_str().unwrap_or(""));
+    let path = dir.join(format!("{}-{}-sequence-{}.json", v.property, v.clause, seed));
+    std::fs::write(&path, serde_json::to_string_pretty(&mk(Some((idx, sig)), &v, &sc, shape.clone())).unwrap()).map_err(|e| e.to_string())?;
+    println!("minimised scenario shape: {shape}");
+    // and it must fail the same way when the file is replayed, twice
+    for _ in 0..2 {
+        if run(&path) != Some(1) {
+            return Err("the sequence does not fail the same way twice".into());
+        }
+    }
+    println!("replay in a fresh process reproduced the violation (sequence of {} runs)", idx + 1);
+    let _ = std::fs::remove_file(&scan);
+    let _ = std::fs::remove_file(&found_path);
+    Ok((path, v))
+}
